@@ -206,10 +206,17 @@ def r4_line_accounting(chk):
     mod = model.mod(LEXER)
     chk.doc('C11.R4', 'a rule whose regex can consume CR or LF updates lineno by the number of line breaks in the '
                       'match: `+= 1` only if every match is exactly one line break (CRLF, LF or CR), otherwise '
-                      '`+= len(re.findall(<CRLF|LF|CR>, t.value))`')
+                      '`+= len(re.findall(<CRLF|LF|CR>, t.value))`; no ignore set holds CR or LF (ply skips ignored characters before '
+                      'any rule sees them)')
     probes = ['\r\n', '\n', '\r', '\n\n', '\r\r', '\n\r', '\r\n\n', 'a', ' ', '', 'a\n', '\na', '\r\n\r\n']
     done = set()
     n = 0
+    # characters in an ignore set are skipped before any rule is tried: a line break there is never counted
+    for s in sorted(lm.states):
+        lb = sorted(set(lm.ignore.get(s) or '') & set('\r\n'))
+        chk.ob('C11.R4', 'state %s/no-line-break-ignored' % s, not lb, LEXER,
+               'the ignore set of state %s holds %r: ply skips ignored characters before trying any rule, so these '
+               'line breaks never reach the rule that counts them and every later line number is too small' % (s, ''.join(lb)))
     for s in sorted(lm.states):
         for r in lm.rules[s]:
             if r.name in done:
